@@ -35,6 +35,7 @@ type Config struct {
 	TimerProb  float64
 	MaxSteps   uint64
 	Replay     []int32 // when non-nil: consume these choices instead of the PRNG
+	Lenient    bool    // replay: an unavailable recorded choice falls back to the default instead of ending the run as diverged
 	KeepLog    int     // keep the last N events for failure reports (0 = none)
 	SwitchBias float64 // uniform: probability to keep running the current goroutine if runnable
 }
@@ -437,6 +438,9 @@ func (s *Sched) choose(run []*G) *G {
 		s.replayAt++
 		if want < 0 {
 			if len(s.timers) == 0 {
+				if s.cfg.Lenient {
+					return s.chooseFIFO(run)
+				}
 				s.fail(StatusDiverged, fmt.Sprintf("replay step %d wants a timer, none pending", s.step), nil)
 			}
 			return nil
@@ -445,6 +449,9 @@ func (s *Sched) choose(run []*G) *G {
 			if int32(g.id) == want {
 				return g
 			}
+		}
+		if s.cfg.Lenient {
+			return s.chooseFIFO(run)
 		}
 		s.fail(StatusDiverged, fmt.Sprintf("replay step %d wants g%d, not runnable", s.step, want), nil)
 		return nil
